@@ -1,7 +1,7 @@
 SPECIFICATION Spec
 CONSTANTS
-  NeSet = {2, 3}
-  NpgSet = {2, 3}
+  NeSet = {1, 2, 3}
+  NpgSet = {1, 2, 3}
   Dims = {2, 3}
   MaxRank = 4
   Ops = {"matmul", "dot", "ddot"}
